@@ -407,3 +407,18 @@ Proof.
   - unfold heta. assert (0 < Flocq.Core.Raux.bpow Flocq.Core.Zaux.radix2 (-1074))%R by apply Flocq.Core.Raux.bpow_gt_0.
     apply Rmult_lt_0_compat; [apply Rinv_0_lt_compat, Rlt_0_2|assumption].
 Qed.
+
+(* ================================================ test_evaluator (debug) ====== *)
+(* type `distinct`: asking again for the fitness of a program gives the same
+   answer and does not grow the buffer (T::operator== reflexive on it) *)
+Theorem C05_test_distinct_time_invariant : forall (prog : Type) (eqb : prog -> prog -> bool) (buf : list prog) (p : prog),
+  eqb p p = true ->
+  test_distinct prog eqb (fst (test_distinct prog eqb buf p)) p =
+  (fst (test_distinct prog eqb buf p), snd (test_distinct prog eqb buf p)).
+Proof. exact P_test_distinct_time_invariant. Qed.
+Print Assumptions C05_test_distinct_time_invariant.
+
+Example C05_test_distinct_example :
+  map (map F64.to_bits) (test_distinct_run Z Z.eqb [] [5; 3; 5; 1; 3]%Z)
+  = map (fun z => [F64.to_bits (F64.of_Z z)]) [0; 1; 0; 2; 1]%Z.
+Proof. vm_compute. reflexivity. Qed.
